@@ -43,6 +43,9 @@ CLAIMED = {
  "C20": ("typestate / must-pass-through on the stop and start paths, occurrence counting of writes per event, argument provenance, control dependence of the log write, who-may-touch (static)",
          "Structural clauses decided for every path: STOP flushes, closes and clears each open side file, writes the STOP label before closing the state file and clears all three file names unconditionally; START assigns the three names from the new pattern with distinct stems and writes the START label on every path; side files are created only from the current name under a nil test of the handle; an external-trigger block is written at most once as the byte view of the whole list, conditional only on writer-exists and list-non-empty; a block with drops while active appends exactly one line of (first frame, drop count), gated only by the drop count and the activity predicate; every accepted label request has passed exactly one label-line write; only the writing-state methods and the two block handlers touch the handles. Not decided: file contents versus an event log, I/O failure paths.",
          "WritingState handle fields discovered by type (*os.File, *bufio.Writer) and paired by name prefix", "DESIGN.md §2 C20"),
+ "C19": ("bit-range abstract interpretation of the packer/accessors, index agreement, structure of the numbering loops, dominance of rejections, overlap-check idioms by polynomial congruence, must-precede of table re-creation (static)",
+         "Structural clauses decided: the row/column code packs four 16-bit fields disjointly and each accessor extracts the field of the parameter it is named after; processors get name and number from the identity tables at their own index and are stored at that index; Lancero error/feedback partners share one number, have distinct constant name prefixes, sit at consecutive indices, the number advances once per pair and one group is recorded per column; Abaco name and number come from one value firstchan+row; Lancero rejections precede every table store and both separation checks test every active card (no early loop exit); the Abaco overlap check is one of two recognised idioms covering every channel number, with the sorted-neighbour form compared as a polynomial (off-by-one detected); every appended identity table is re-made on every path before its first append. Not decided: that the separations make numbers collision-free for every geometry.",
+         "names of the identity tables and of rcCode/row/col/rows/cols are name-keyed anchors; an overlap check in a third form is reported as undecided", "DESIGN.md §2 C19"),
  "C13": ("dominating-comparison facts, path rule, control dependence and flow-insensitive dependence slicing on SSA (static)",
          "Structural necessary conditions only (the numeric identities are not decided): projectors/basis installed only after the three shape equalities hold; record length never changed while projectors validated for another length stay installed; sample->float64 conversions under the matching arm of the signed flag; each analysis result depends on the record's own data/pre-trigger count (never on the per-channel length setting), model coefficients on the projector matrix, residual on the basis matrix; slices stored into a record are fresh per record.",
          "dependence is over-approximated through memory of locals, make() sites and struct-field storage; field names of DataRecord are name-keyed anchors", "DESIGN.md §2 C13"),
